@@ -120,6 +120,13 @@ def position_docs(tier):
             for tl in tails:
                 docs.append(("", "%sPress %s then %s now\n" % (ctxp, tgc, tl)))
                 docs.append(("", "%sx %s y\n%s%s and %s z\n" % (ctxp, tgc, ind, tl, tgc)))
+    # a link / image whose label wraps a line, followed in the same paragraph by another element that spans two lines
+    for ctxp in ("", "> ", "- "):
+        ind = "  " if ctxp == "- " else ctxp
+        for lab in ("[a\n%sb](/u)", "![a\n%sb](/u)", "[a\n%sb][r]"):
+            for fol in ("<d\n%se>", "[d](/v\n%s\"t\")", "`c\n%sd`", "[d](\n%s/v)", "*e\n%sf*", "[x\n%sy](/w)"):
+                docs.append(("", "%s%s c %s f\n\n[r]: /r\n" % (ctxp, lab % ind, fol % ind)))
+                docs.append(("", "%sSee %s and the %s for details.\n" % (ctxp, lab % ind, fol % ind)))
     # paragraphs with TAB separators, an inline element, and text after it whose first word also occurs earlier in the line
     import itertools as _it
     for ctxp in ("", "> ", "- "):
